@@ -385,6 +385,8 @@ def profile():
         'BA::toBase64/0': ('fnret', 'BA_toBase64', 'BA'),
         'BA::toHex/0': ('fnret', 'BA_toHex', 'BA'),
         'BA::toInt/0': ('fn', 'BA_toInt'),
+        'BA::toInt/1': ('fn', 'BA_toInt_ok'),
+        'BA::toInt/2': ('fn', 'BA_toInt_ok_base'),
         'BA::replace/2': ba_replace,
         'fn:fromBase64/1': ('fnret', 'BA_fromBase64', 'BA'),
         # QString
